@@ -109,7 +109,9 @@ Definition PATH : name := [x50; x41; x54; x48].
 
 Inductive node :=
   | Dir (ro : bool)               (* ro: mode without write permission (chmod 0555) *)
-  | File (data : bytes) (x : bool). (* x: some execute bit set *)
+  | File (data : bytes) (x : bool)  (* x: some execute bit set *)
+  | Link (target : bytes).        (* a symbolic link; nothing in the model follows it: the scripts of the
+                                     harness never name a link as a component of another path *)
 
 Definition tree := list (path * node).
 
@@ -146,6 +148,7 @@ Definition mkdir_one (root : bool) (t : tree) (q : path) : option tree :=
   match tree_get t q with
   | Some (Dir _) => Some t
   | Some (File _ _) => None
+  | Some (Link _) => None
   | None => if dir_writable root t (removelast q) then Some (tree_set t q (Dir false)) else None
   end.
 
@@ -165,6 +168,7 @@ Definition write_file (root : bool) (t : tree) (p : path) (d : bytes) : option t
       match tree_get t p with
       | Some (Dir _) => None
       | Some (File _ x) => Some (tree_set t p (File d x))
+      | Some (Link _) => None
       | None => if dir_writable root t (removelast p) then Some (tree_set t p (File d false)) else None
       end
   end.
@@ -235,7 +239,9 @@ Definition expected_node (files : list (path * bytes)) (p : path) : option node 
 
 (* removeAll: WalkDir making every directory writable, then os.RemoveAll.  RemoveAll cannot
    unlink an entry of a read-only directory (unless root); what it cannot unlink stays, together
-   with all its ancestors. *)
+   with all its ancestors.  The WalkDir does not descend into symbolic links and the mode is changed
+   for directories only: a link is left alone, and so is whatever it points to (the model of the
+   whole file system, with link targets outside the work directory, is TsCleanup.v). *)
 Definition chmod_all (t : tree) : tree :=
   map (fun qn => (fst qn, match snd qn with Dir _ => Dir false | n => n end)) t.
 
@@ -252,6 +258,44 @@ Definition os_remove_all (root : bool) (t : tree) : tree :=
   filter (fun qn => stuck root t (fst qn)) t.
 
 Definition remove_all (root : bool) (t : tree) : tree := os_remove_all root (chmod_all t).
+
+(* `rm p` = removeAll(p), then os.RemoveAll(p) once more, whose error fails the line. *)
+Definition below (q p : path) : bool := path_prefix q p && negb (path_eqb q p).
+Definition remove_below (t : tree) (q : path) : tree := filter (fun e => negb (below q (fst e))) t.
+Definition remove_at (t : tree) (q : path) : tree := filter (fun e => negb (path_prefix q (fst e))) t.
+
+(* a proper prefix of q names something that is not a directory: ENOTDIR (a missing prefix is
+   ENOENT, for which RemoveAll returns nil) *)
+Definition blocked_by_file (t : tree) (q : path) : bool :=
+  existsb (fun r => match tree_get t r with Some (Dir _) | None => false | Some _ => true end)
+          (prefixes (removelast q)).
+
+Inductive rm_result := RmOk (t : tree) | RmFail (t : tree).
+
+Definition rm_path (root : bool) (t : tree) (q : path) : rm_result :=
+  match q with
+  | [] => RmFail t                      (* the work directory itself: not done by the harness *)
+  | _ =>
+      if blocked_by_file t q then RmFail t
+      else match tree_get t q with
+           | None => RmOk t
+           | Some n =>
+               if unremovable root t q
+               then (* the chmod pass and the removal of everything below succeed; q itself cannot be unlinked *)
+                    RmFail (match n with Dir _ => tree_set (remove_below t q) q (Dir false) | _ => t end)
+               else RmOk (remove_at t q)
+           end
+  end.
+
+(* os.Symlink(target, q): q must not exist, its directory must exist and be writable *)
+Definition symlink_at (root : bool) (t : tree) (q : path) (tg : bytes) : option tree :=
+  match q with
+  | [] => None
+  | _ => match tree_get t q with
+         | Some _ => None
+         | None => if dir_writable root t (removelast q) then Some (tree_set t q (Link tg)) else None
+         end
+  end.
 
 Definition is_exec (t : tree) (p : path) : bool :=
   match tree_get t p with Some (File _ true) => true | _ => false end.
@@ -276,6 +320,8 @@ Inductive action :=
   | AKillWait                            (* kill, then wait: the statuses are checked as by skip *)
   | AWait                                (* wait: no signal is sent; blocks on a command that is still running *)
   | AExec (neg : bool) (prog : name)     (* [!] exec prog ...: a foreground command that succeeds when it can be run *)
+  | ASymlink (p : path) (tg : bytes)     (* symlink p -> tg *)
+  | ARm (p : path)                       (* rm p *)
   | AIfExec (neg : bool) (prog : name) (a : action).  (* [exec:prog] a   /   [!exec:prog] a *)
 
 Record script := {
@@ -478,6 +524,7 @@ Fixpoint exec_action (cfg : config) (s : nat) (c : cache) (ss : sstate) (a : act
           match tree_get (tr ss) q with
           | Some (File d _) => (c, set_tree ss (tree_set (tr ss) q (File d true)), OCont)
           | Some (Dir _) => (c, set_tree ss (tree_set (tr ss) q (Dir false)), OCont)
+          | Some (Link _) => (c, ss, OFail)   (* not done by the harness (chmod follows links) *)
           | None => (c, ss, OFail)
           end
       end
@@ -515,6 +562,16 @@ Fixpoint exec_action (cfg : config) (s : nat) (c : cache) (ss : sstate) (a : act
       if look cfg s (tr ss) (path_value (senv ss)) prog
       then (c, ss, if neg then OFail else OCont)
       else (c, ss, if neg then OCont else OFail)
+  | ASymlink p tg =>
+      match symlink_at (is_root cfg) (tr ss) (cwd ss ++ p) tg with
+      | Some t => (c, set_tree ss t, OCont)
+      | None => (c, ss, OFail)
+      end
+  | ARm p =>
+      match rm_path (is_root cfg) (tr ss) (cwd ss ++ p) with
+      | RmOk t => (c, set_tree ss t, OCont)
+      | RmFail t => (c, set_tree ss t, OFail)
+      end
   | AWait =>
       let '(waited, res) := wait_list (signalled (obs ss)) (bgl ss) in
       let ss1 := add_obs ss waited in
